@@ -97,7 +97,7 @@ class C05(Check):
     # ------------------------------------------------------------------ plan
     def _gen_opt_case(self, rng):
         lexer = rng.choice(['basic', 'dynamic', 'dynamic_complete'])
-        g = prio.gen_grammar(rng, colliding=(lexer != 'basic'), deep=rng.random() < 0.5)
+        g = prio.gen_grammar(rng, colliding=(lexer != 'basic' or rng.random() < 0.4), deep=rng.random() < 0.5)
         inputs = prio.gen_inputs(g, rng, k=4)
         mode = rng.choice(['normal', 'normal', 'invert', 'invert', None])
         return {'kind': 'opt', 'g': g, 'inputs': inputs, 'lexer': lexer, 'priority': mode, 'ordered_sets': rng.random() < 0.7}
@@ -230,7 +230,8 @@ class C05(Check):
                 continue
             # ---- reference model: all derivations with priority sums
             try:
-                D = prio.enumerate_derivations(c['g'], s)
+                only = prio.basic_lexer_choice(c['g'], c['priority']) if c['lexer'] == 'basic' else None
+                D = prio.enumerate_derivations(c['g'], s, only_terminals=only)
             except prio.Overflow:
                 out.count('enumeration-overflow')
                 continue
